@@ -23,6 +23,10 @@ CLAIMS = {
   TRUST + "Expression.Execute is assumed to be a function of expression and pair (interface contract); Put/BatchPut/Delete/BatchDelete semantics are A-STORE. Parser/validators for PUT and REMOVE are not yet under contract.",
   "DESIGN.md section 5, C12"),
 
+ "C14": ("proof",
+  "checker.go is under contract: each operator's operand rule is a postcondition of its checkWith* function (stated over the static result types of the operands), and a ghost mark proves that a successful Check of any node implies a successful Check of every operand, list item, argument and field-access operand below it, with the in-place alias rewriting modelled exactly (element-level frames); Check returns only SyntaxError values. 29 functions, obligations generated from the working tree's go/ssa form on every run and discharged by z3 / cvc5.",
+  TRUST + "Known finding D13 (unknown function / wrong argument count accepted at build time; pinned by the existing tests, not repaired) is listed in known_findings.json. The converse direction (allowed statements are accepted and never raise operand-type errors) and the parser's per-statement keyword flags are not covered. Static result types are a specification function (A-RTYPE).",
+  "DESIGN.md section 5, C14"),
  "C15": ("proof",
   "The recursive-descent expression parser is under contract: Token.Precedence and BuildOp are proved equal to the documented operator table, and parseBinaryExpr and its eleven helpers are proved, for every token sequence, to build only binary nodes whose left operand binds at least as strongly and whose right operand binds strictly more strongly than the node's operator (ghost binding level, parentheses / calls / indexes / lists at the top level), to stop exactly in front of a weaker operator, and to parse BETWEEN bounds above the comparison level. Obligations are generated from the go/ssa form of the working tree on every run (defer, closures and the constant operator map included) and discharged by z3 / cvc5.",
   TRUST + "Covers the binding-strength / associativity half of the property. The String()/re-parse round trip, case folding and in-order token consumption are not covered (see evidence). The ghost level is maintained by ghost statements in the contract file.",
